@@ -301,6 +301,43 @@ def c20_run(ctx):
             if obsa != obsb and (worst is None or worst[0] == "corr"):
                 worst = ("roundtrip", f"case {i}", a_lines + ["// ---- imported as:"] + b_lines,
                          dict(op=" ".join(opb), impl=obsb, spec=obsa))
+    # the same through the route `xs import` uses: POST /import frame by frame, in the same permuted order, into a fresh server
+    n_http = 0
+    for i, (b_lines, ra, rb) in enumerate(zip(imports, res_a, res_b)):
+        if n_http >= (4 if ctx.tier == "quick" else 40) or S.compare(ra, ALL_OPS)["hyp_broken_at"] is not None:
+            continue
+        order = [l.split(" ") for l in b_lines if l.startswith("import ")]
+        if len(order) < 3:
+            continue
+        n_http += 1
+        want = None
+        for op, obs in S.parse_trace(rb["trace"]):
+            if op[0] == "readsync" and op[1:] == ["-", "-", "-"]:
+                want = obs.split(" ")[3:]
+        srv = H.Server("api")
+        try:
+            bad = None
+            for t in order:
+                def ttl_json(x):
+                    return None if x == "-" else (x.split(":")[0] + ":%d" % int(x.split(":")[1], 16) if ":" in x else x)
+                fj = dict(topic=S.unxh(t[3]).decode(), context_id=H.id_to_s(int(t[2][1:], 16)), id=H.id_to_s(int(t[1][1:], 16)),
+                          hash=S.unxh(t[4]).decode() if t[4] != "-" else None,
+                          meta=json.loads(S.unxh(t[5])) if t[5] != "-" else None, ttl=ttl_json(t[6]))
+                st, hd, body = srv.request(H.render("POST", "/import", body=json.dumps(fj, separators=(",", ":"), ensure_ascii=False).encode()))
+                if st != 200 and bad is None:
+                    bad = (st, body[:120], fj)
+            srv.gc()
+            got = srv.dump()
+            # (api::serve announces itself with an xs.start frame: not part of the import)
+            got = [f for f in got if f.split(",")[2] != S.xh("xs.start")] if got is not None else None
+        finally:
+            srv.close()
+        if bad is not None and worst is None:
+            worst = ("roundtrip", f"case {i} over HTTP", b_lines, dict(op="POST /import " + json.dumps(bad[2])[:200], impl=f"{bad[0]} {bad[1]!r}", spec="200"))
+        elif want is not None and got is not None and got != want and worst is None:
+            worst = ("roundtrip", f"case {i} over HTTP", b_lines,
+                     dict(op="POST /import x%d then read" % len(order), impl=" ".join(got)[:400], spec=" ".join(want)[:400]))
+    ctx.coverage["stores_also_imported_over_http"] = n_http
     ctx.coverage.update(dict(
         evaluations=2 * n, distinct_nontrivial=len(distinct),
         rule="one evaluation = one real store: n source stores built by generated histories, n stores built by importing "
